@@ -302,7 +302,9 @@ class IMAPClientProxy:
                         await self.push(f"{imap_cmd.tag} BAD {e}\r\n")
                     else:
                         await self.push(f"* BAD {e}\r\n")
-                    return
+                    # The command has been answered. Wait for the next one.
+                    #
+                    continue
 
                 # Pass the command on to the command processor to handle.
                 #
